@@ -18,7 +18,8 @@ FFD == 6   \* a user-supplied FILE lives on descriptor 6
 DEADFD == 29   \* a descriptor number that is NOT open (and that the library's own descriptors never reach under the limit of 32)
 HFDH == 1050   \* ... or, in a crowded caller, on descriptor 1050
 PATHS == "/d/f"
-Extras == <<<<HFD, 0, Name(HFD)>>, <<FFD, 0, Name(FFD)>>, <<9, 0, Name(9)>>, <<11, 1, Name(11)>>, <<30, 0, Name(30)>>, <<31, 0, Name(31)>>>>   \* 31 = the highest descriptor the limit (32) permits
+Extras == <<<<HFD, 0, Name(HFD)>>, <<FFD, 0, Name(FFD)>>, <<9, 0, Name(9)>>, <<11, 1, Name(11)>>, <<30, 0, Name(30)>>, <<31, 0, Name(31)>>,
+           <<12, 0, "hp">>>>   \* "hp": the read end of a pipe whose writer is gone (open and inheritable like the others, but hung up)   \* 31 = the highest descriptor the limit (32) permits
 
 R(t, h, f, p) == [t |-> t, h |-> h, f |-> f, p |-> p]
 U == R(0, 0, 0, "")
@@ -55,6 +56,9 @@ WiringPoints ==
   \cup {Opt(<<R(T_PIPE, 0, 0, ""), b, c>>, NoSh, 2, FALSE, TRUE) : b \in {U, R(T_PARENT, 0, 0, "")}, c \in {U, R(T_STDOUT, 0, 0, "")}}
   \* many inherited descriptors
   \cup {Opt(<<U, U, U>>, NoSh, -1, FALSE, TRUE) @@ [many |-> TRUE], Opt(<<PIPE3, PIPE3, PIPE3>>, NoSh, -1, FALSE, TRUE) @@ [many |-> TRUE]}
+  \* a stream given by its member only (type left unset) next to a shorthand for the OTHER streams: the member wins for that stream
+  \cup {Opt([<<U, U, U>> EXCEPT ![s] = r], sh, -1, FALSE, TRUE) : s \in 1..3, r \in {R(0, HFD, 0, ""), R(0, 0, FFD, ""), R(0, 0, 0, PATHS)},
+          sh \in {[NoSh EXCEPT !.parent = TRUE], [NoSh EXCEPT !.discard = TRUE]}}
   \* a handle / a FILE whose descriptor is not open (closed underneath a stale FILE object): an unusable target, for any stream
   \cup {Opt([<<U, U, U>> EXCEPT ![s] = r], NoSh, -1, FALSE, TRUE) : s \in 1..3, r \in {R(T_FILE, 0, DEADFD, ""), R(T_HANDLE, DEADFD, 0, ""), R(T_DEFAULT, 0, DEADFD, "")}}
   \* a caller whose descriptor table is full below 1040: every descriptor the library creates, and the handle the caller
